@@ -37,6 +37,11 @@ def main():
         d = tempfile.mkdtemp(prefix="vfdetect_")
         try:
             shutil.copytree("/repo/psutil", os.path.join(d, "psutil"))
+            os.makedirs(os.path.join(d, "docs"), exist_ok=True)
+            shutil.copy("/repo/docs/index.rst", os.path.join(d, "docs"))
+            for f in ("setup.py", "pyproject.toml"):
+                if os.path.exists("/repo/" + f):
+                    shutil.copy("/repo/" + f, d)
             rc, out = sh(f"patch -s -p1 -d {d} -i {sd}/patch.diff")
             if rc != 0:
                 rows.append((sid, "patch does not apply", "", ""))
